@@ -14,7 +14,7 @@ RULE = ("wheel file names with tag triples / compressed sets drawn from packagin
         "for the ranking; non-trivial = the case hits a flag (compressed set, foreign category, manylinux policy, tie, ...)")
 ASSUMPTIONS = [
     "packaging.tags.sys_tags() is the reference for 'a tag the running interpreter supports on this platform'",
-    "no _manylinux override module is installed (the model has no such branch)",
+    "no _manylinux override module is installed in the model-backed streams (the model has no such branch); the `site-override` stream installs one and judges the code against packaging.tags only",
     "Darwin/Windows branches of _get_platform_tags are not executable here: modelled only through PLATFORM_TAGS, not validated",
     "python tags / platform tags are ASCII alphanumerics and underscores (int()/isalpha() are modelled on ASCII)",
 ]
@@ -355,5 +355,79 @@ class RankStream(Stream):
             yield {"files": files, "perm": perm}
 
 
+class OverrideStream(Stream):
+    """a site policy module `_manylinux` (PEP 600 / PEP 513 / 571) is installed: `manylinux_compatible(major, minor, arch)`
+    answering True / False / None ("no opinion"), or the legacy attributes; packaging.tags under the same module is the
+    reference for "the running interpreter supports this tag".  Oracle only: the Lean model has no such branch."""
+    name = "site-override"
+    quick_n = 300
+    thorough_n = 6000
+    batch = 100
+
+    LEVELS = [(2, 5), (2, 12), (2, 17), (2, 28), (2, 34), (2, 36)]
+
+    def generate(self, rng):
+        kind = rng.choice(["function", "function", "legacy", "empty"])
+        table = {}
+        if kind == "function":
+            for lv in rng.sample(self.LEVELS, rng.randint(0, 4)):
+                table["%d.%d" % lv] = rng.choice([True, False, None])
+        elif kind == "legacy":
+            for a in rng.sample(["manylinux1_compatible", "manylinux2010_compatible"], rng.randint(0, 2)):
+                table[a] = rng.choice([True, False])
+        lv = rng.choice(self.LEVELS)
+        arch = rng.choice(["x86_64", "x86_64", "x86_64", "aarch64"])
+        tag = rng.choice(["manylinux_%d_%d_%s" % (lv[0], lv[1], arch)] +
+                         ({(2, 5): ["manylinux1_" + arch], (2, 12): ["manylinux2010_" + arch], (2, 17): ["manylinux2014_" + arch]}.get(lv, [])))
+        return {"kind": kind, "table": table, "default": rng.choice([None, None, True, False]) if kind == "function" else None, "tag": tag}
+
+    def impl(self, case):
+        import sys
+        import types
+        import packaging.tags
+        from req_compile.repos import repository as R
+        mod = types.ModuleType("_manylinux")
+        if case["kind"] == "function":
+            table, default = case["table"], case["default"]
+
+            def manylinux_compatible(major, minor, arch):
+                return table.get("%d.%d" % (major, minor), default)
+            mod.manylinux_compatible = manylinux_compatible
+        elif case["kind"] == "legacy":
+            for k, v in case["table"].items():
+                setattr(mod, k, v)
+        saved = sys.modules.get("_manylinux")
+        sys.modules["_manylinux"] = mod
+
+        def forget():
+            # packaging remembers the policy module it found first
+            import packaging._manylinux as PM
+            for fn in ("_get_manylinux_module", "_is_compatible"):
+                f = getattr(PM, fn, None)
+                if hasattr(f, "cache_clear"):
+                    f.cache_clear()
+        forget()
+        try:
+            fn = "foo-1.0-py3-none-%s.whl" % case["tag"]
+            c = R.filename_to_candidate("http://x/" + fn, fn)
+            code = R.check_usability(None, c, has_equality=True, allow_prereleases=True) is None
+            supported = packaging.tags.Tag("py3", "none", case["tag"]) in set(packaging.tags.sys_tags())
+        finally:
+            if saved is None:
+                sys.modules.pop("_manylinux", None)
+            else:
+                sys.modules["_manylinux"] = saved
+            forget()
+        return {"eligible": code, "supported": supported}
+
+    def flags(self, case, r):
+        return ["policy:" + case["kind"], "supported" if r["supported"] else "unsupported", "eligible" if r["eligible"] else "rejected"]
+
+    def oracle(self, case, r):
+        if r["supported"] and not r["eligible"]:
+            return [("C20/supported-rejected/site-override", {"tag": case["tag"], "policy": case["kind"], "table": case["table"], "default": case["default"]})]
+        return []
+
+
 def streams():
-    return [TagStream(), SynthStream(), RankStream()]
+    return [TagStream(), SynthStream(), RankStream(), OverrideStream()]
